@@ -270,15 +270,13 @@ theorem firstFinish_keeps (c : Nat) : EKeeps (ECacheR c) (do
 def FirstBounded (env : Env) (c : Nat) : Prop :=
   ∀ fn, env.first = some fn → ∀ n input lang, (fn n input lang).content.length + c < U32
 
-theorem runFirst_keeps (c : Nat) (env : Env) (hf : FirstBounded env c) (cfg : Cfg) :
-    EKeeps (ECacheR c) (runFirst env cfg) := by
+theorem runFirstBody_keeps (c : Nat) (env : Env) (hf : FirstBounded env c) (cfg : Cfg)
+    (fn : Nat → Option Bytes → Option Bytes → ExtResult) (hfn : env.first = some fn) :
+    EKeeps (ECacheR c) (runFirstBody env cfg fn) := by
   have P := eCacheR_pre c
   apply EKeeps.of_at; intro e
-  unfold runFirst
-  split
-  · exact EKeepsAt.pure P _ _
-  · next fn hfn =>
-    apply EKeepsAt.get_bind P
+  unfold runFirstBody
+  · apply EKeepsAt.get_bind P
     dsimp only
     split
     · exact EKeepsAt.raw P _ _
@@ -316,6 +314,18 @@ theorem runFirst_keeps (c : Nat) (env : Env) (hf : FirstBounded env c) (cfg : Cf
                 · intro _ e4 _
                   exact EKeepsAt.bind P (fin e4) (fun _ e5 _ => EKeepsAt.pure P _ _)
               · exact EKeepsAt.bind P (fin e3) (fun _ e4 _ => EKeepsAt.pure P _ _)
+
+theorem runFirst_keeps (c : Nat) (env : Env) (hf : FirstBounded env c) (cfg : Cfg) :
+    EKeeps (ECacheR c) (runFirst env cfg) := by
+  have P := eCacheR_pre c
+  unfold runFirst
+  split
+  · exact EKeeps.pure P _
+  · next fn hfn =>
+    apply EKeeps.bind P (EKeeps.vm (Keeps.of_sameCache ((flagOps_sameCache _).2.2.2 _))); intro t
+    apply EKeeps.ite
+    · exact EKeeps.bind P (EKeeps.modify_same _ (fun _ => rfl)) (fun _ => EKeeps.pure P _)
+    · exact runFirstBody_keeps c env hf cfg fn hfn
 
 /-- structural automation for the big engine functions: binds, conditionals, matches, and the leaves proved above -/
 macro "ekeeps_auto" : tactic => `(tactic| repeat' (first
